@@ -90,7 +90,7 @@ LETS = {
     'L': 'stream[pos + 16] * 256 + stream[pos + 17]',
     'T': 'stream[pos + 18]',
     'marker_ok': 'stream[pos:pos + 16] == Message.MARKER',
-    'type_ok': '(L >= 29 if T == 1 else L >= 23 if T == 2 else L >= 21 if T == 3 else L == 19 if T == 4 else L == 23 if T == 5 else L >= 19)',
+    'type_ok': '(29 <= L and L <= 4096 if T == 1 else L >= 23 if T == 2 else L >= 21 if T == 3 else L == 19 if T == 4 else L == 23 if T == 5 else L >= 19)',
     'header_ok': 'marker_ok and 19 <= L and L <= self.connection.msg_size and type_ok',
 }
 
